@@ -5,6 +5,7 @@ import UbxModel.Spec.Keys
 -/
 namespace C13
 open Ubx Spec
+variable [KeyTable]
 
 /-- the library's size tables are those of the protocol -/
 theorem size_tables :
@@ -43,7 +44,7 @@ theorem published_keys :
     ∀ e ∈ Gen.publishedKeys,
       (e.1 < 2 ^ 31 ∧ (e.1 / 2 ^ 24) % 16 = 0 ∧ (e.1 / 2 ^ 12) % 16 = 0) ∧
       (1 ≤ (e.1 / 2 ^ 28) % 8 ∧ (e.1 / 2 ^ 28) % 8 ≤ 5) ∧
-      e.2.2 = documentedSigned e.1 ∧ keySigned e.1 = documentedSigned e.1 := by
+      e.2.2 = documentedSigned e.1 ∧ @keySigned publishedTable e.1 = documentedSigned e.1 := by
   decide +kernel
 
 /-- the published key ids are pairwise distinct -/
@@ -53,6 +54,7 @@ end C13
 
 namespace C13
 open Ubx Spec
+variable [KeyTable]
 
 /-- **C13 (key id kept).** For *every* key id whose reserved bits are zero and whose size code is
     valid (1..5): the item built from the key has the group, item and width the key id encodes, and
